@@ -128,6 +128,10 @@ def gen(rng, d=0, jsonmode=True):
             for i in range(min(n, 40))]
     if not jsonmode and rng.random() < 0.4:
         keys = keys[:3] + [7, 3, 100, -2, 10 ** 12][:rng.randint(1, 5)]
+        if rng.random() < 0.3:
+            # neighbouring ints beyond what a float can tell apart (ids, timestamps in nanoseconds)
+            base = rng.choice([2 ** 53, 2 ** 63, 10 ** 18 * 9, 2 ** 64])
+            keys = keys + [base + 2, base + 1, base, base - 1][:rng.randint(2, 4)]
         # small ints and the keywords that are equal to them (never both in one dict), None
         extra = rng.choice([[0, 1], [True, False], [None, 1], [0, True], [False, 1, None], [2, 0]])
         keys = keys + extra[:rng.randint(1, len(extra))]
@@ -209,13 +213,16 @@ _PRINTERS = {}
 _PENDING = {}
 
 ROUTES = ("no_color", "no_color", "palette_object", "palette_class", "colors_conf", "conf_and_palette_class",
-          "global_config")
+          "global_config", "synced_palette_object")
 
 
 def nc_kwargs(route):
     """the documented ways to ask a printer for a no-colour result"""
     if route == "palette_object":
         return dict(palette=PrettyPrinter.PPPalette(), no_color=True)
+    if route == "synced_palette_object":
+        # (the palette object that follows the global configuration)
+        return dict(palette=PrettyPrinter.PPPalette(synced=True), no_color=True)
     if route == "palette_class":
         return dict(palette=PrettyPrinter.PPPalette, no_color=True)
     if route == "colors_conf":
